@@ -380,21 +380,23 @@ func resAlphabet(withNil bool) []resSym {
 	return rs
 }
 
-// scopeAlphabet: S1; S2 same name, other version; S3 differs from S1 only in attributes; S4
-// differs from S1 only in the schema URL; the empty scope.
+// scopeAlphabet: S1 and one scope per component of the scope identity that differs from S1 in
+// exactly that component (S2 version, S3 attributes, S4 schema URL, S5 name), and the empty scope.
 func scopeAlphabet() []scopeSym {
+	a1, a2 := attribute.NewSet(attribute.Int("a", 1)), attribute.NewSet(attribute.Int("a", 2))
 	return []scopeSym{
-		{"S1", instrumentation.Scope{Name: "lib", Version: "1", SchemaURL: "https://example.test/s1", Attributes: attribute.NewSet(attribute.Int("a", 1))}},
-		{"S2", instrumentation.Scope{Name: "lib", Version: "2"}},
-		{"S3", instrumentation.Scope{Name: "lib", Version: "1", SchemaURL: "https://example.test/s1", Attributes: attribute.NewSet(attribute.Int("a", 2))}},
-		{"S4", instrumentation.Scope{Name: "lib", Version: "1", SchemaURL: "https://example.test/s4", Attributes: attribute.NewSet(attribute.Int("a", 1))}},
+		{"S1", instrumentation.Scope{Name: "lib", Version: "1", SchemaURL: "https://example.test/s1", Attributes: a1}},
+		{"S2", instrumentation.Scope{Name: "lib", Version: "2", SchemaURL: "https://example.test/s1", Attributes: a1}},
+		{"S3", instrumentation.Scope{Name: "lib", Version: "1", SchemaURL: "https://example.test/s1", Attributes: a2}},
+		{"S4", instrumentation.Scope{Name: "lib", Version: "1", SchemaURL: "https://example.test/s4", Attributes: a1}},
+		{"S5", instrumentation.Scope{Name: "lib5", Version: "1", SchemaURL: "https://example.test/s1", Attributes: a1}},
 		{"S0", instrumentation.Scope{}},
 	}
 }
 
-// sixPairs indexes (resource, scope) pairs used for the longer sequences:
+// sixPairs indexes the (resource, scope) pairs used for the longer sequences:
 // (R1,S1) (R1',S1) (R1,S2) (R2,S1) (Rempty,S0) (R1,S0).
-func sixPairs() [][2]int { return [][2]int{{0, 0}, {1, 0}, {0, 1}, {2, 0}, {3, 4}, {0, 4}} }
+func sixPairs() [][2]int { return [][2]int{{0, 0}, {1, 0}, {0, 1}, {2, 0}, {3, 5}, {0, 5}} }
 
 // eachSeq calls f for every sequence of length L over [0,n), in lexicographic order; when
 // first >= 0 only sequences starting with it.
